@@ -22,6 +22,10 @@ int poll_set_new_evt(poll_priv_t *priv, ev_src_t *tmp, const enum op_type flag) 
     GET_PRIV_DATA();
 
     /* Eventually alloc epoll data if needed */
+    if (tmp->ev && flag == ADD) {
+        /* Already polled (eg: ctx tick source set while the loop was starting): do not create its fd twice */
+        return 0;
+    }
     if (!tmp->ev) {
         if (flag == ADD) {
             tmp->ev = memhook._calloc(1, sizeof(struct epoll_event));
